@@ -549,16 +549,18 @@ func (u *Unit) deadPostconditions() []string {
 			sem <- struct{}{}
 			defer func() { <-sem }()
 			alive := false
+			static := true // the antecedent is the literal false everywhere (a typearg() clause of another instantiation)
 			for _, a := range byClause[cl] {
 				if a.Cond.S == "false" {
 					continue
 				}
+				static = false
 				if r := Solve(u.script(&Obligation{Prefix: a.Prefix, Goal: Not(a.Cond)}, u.finalActive), nil, 2, false); r.Status != "unsat" {
 					alive = true
 					break
 				}
 			}
-			if !alive {
+			if !alive && !static {
 				mu.Lock()
 				out = append(out, cl)
 				mu.Unlock()
